@@ -1807,7 +1807,7 @@ class C02(PropBase):
         "are read by the extracted dec_maccrash and by the real reader, and judged by the oracle from the model)",
         "extraction: ExtrOcamlBasic only; ocaml/zconv.ml + ocaml/c02/main.ml; harness/src/bin/c02.rs",
     ]
-    assumptions = ["partial: the table syntax of MozLinuxLimits is not modelled (the stream is compared as raw bytes); LinuxCmdLine / LinuxAuxv / "
+    assumptions = ["partial: MozLinuxLimits is a raw stream (its reader keeps the bytes; the table accessors are not part of this property); LinuxCmdLine / LinuxAuxv / "
                    "LinuxDsoDebug have no typed reader: they are covered as raw streams by the directory theorem and as entries of unimplemented_streams()",
                    "Mac crash info: the theorem (c02_maccrash_any_placement) covers records of version >= 1 that share one version, wherever they are stored; "
                    "records of version 0 (passed over), mixed versions, short record_start_size, bad strings are compared with the model and, where the format "
@@ -1839,8 +1839,10 @@ class C02(PropBase):
                 "unknown), unimplemented_streams() = the served entries of the regenerated table, all_streams() = the union of the three kinds; the model's "
                 "stream_vendor and 0-or-4 list padding rule are proved equal to the expressions regenerated from minidump.rs, the statements of Minidump::read "
                 "are pinned in order; linux_list_iter reads `key<sep>value` lines back as exactly the pairs written; a /proc/<pid>/maps listing as the kernel "
-                "writes it (any zero padding, blanks, every kind of name) reads back through MinidumpLinuxMaps::read as exactly its mappings, also as the "
-                "LinuxMaps stream of a whole serialized dump; "
+                "writes it (any zero padding, blanks, every kind of name; smaps attribute lines between the mappings) reads back through "
+                "MinidumpLinuxMaps::read as exactly its mappings, also as the LinuxMaps stream of a whole serialized dump; on ALL inputs the reader's debug and "
+                "release builds agree except for one debug-only multiplication trap, and it ends in regions, an error or one of three known panic sites; "
+                "a handle data stream of 40-byte descriptors yields the object-information chain of every descriptor wherever the records lie; "
                 "every address of an isolated region reads back its byte (C08); CPU contexts of nine "
                 "architectures read back their registers iff context_flags match; debug/code identifiers are the documented functions of the CodeView record. "
                 "The model is tied to the code by reading the same serialized bytes with the real Minidump::read/get_stream/get_raw_stream/all_streams/unknown_streams/unimplemented_streams "
